@@ -24,24 +24,6 @@ import (
 	"google.golang.org/protobuf/types/descriptorpb"
 	"google.golang.org/protobuf/types/pluginpb"
 
-	_ "google.golang.org/protobuf/cmd/protoc-gen-go/testdata/annotations"
-	_ "google.golang.org/protobuf/cmd/protoc-gen-go/testdata/comments"
-	_ "google.golang.org/protobuf/cmd/protoc-gen-go/testdata/enumprefix"
-	_ "google.golang.org/protobuf/cmd/protoc-gen-go/testdata/extensions/base"
-	_ "google.golang.org/protobuf/cmd/protoc-gen-go/testdata/extensions/ext"
-	_ "google.golang.org/protobuf/cmd/protoc-gen-go/testdata/extensions/extra"
-	_ "google.golang.org/protobuf/cmd/protoc-gen-go/testdata/extensions/proto3"
-	_ "google.golang.org/protobuf/cmd/protoc-gen-go/testdata/featureresolution"
-	_ "google.golang.org/protobuf/cmd/protoc-gen-go/testdata/features"
-	_ "google.golang.org/protobuf/cmd/protoc-gen-go/testdata/fieldnames"
-	_ "google.golang.org/protobuf/cmd/protoc-gen-go/testdata/import_public"
-	_ "google.golang.org/protobuf/cmd/protoc-gen-go/testdata/imports"
-	_ "google.golang.org/protobuf/cmd/protoc-gen-go/testdata/issue780_oneof_conflict"
-	_ "google.golang.org/protobuf/cmd/protoc-gen-go/testdata/nameclash"
-	_ "google.golang.org/protobuf/cmd/protoc-gen-go/testdata/proto2"
-	_ "google.golang.org/protobuf/cmd/protoc-gen-go/testdata/proto3"
-	_ "google.golang.org/protobuf/cmd/protoc-gen-go/testdata/protoeditions"
-	_ "google.golang.org/protobuf/cmd/protoc-gen-go/testdata/retention"
 	_ "google.golang.org/protobuf/types/gofeaturespb"
 	_ "google.golang.org/protobuf/types/known/anypb"
 	_ "google.golang.org/protobuf/types/known/apipb"
@@ -396,7 +378,9 @@ func genImportBlock(c *Ctx) {
 	if err != nil {
 		panic(err)
 	}
-	path := func() string { return genImportDirs[c.Intn(len(genImportDirs))] + genImportBases[c.Intn(len(genImportBases))] }
+	path := func() string {
+		return genImportDirs[c.Intn(len(genImportDirs))] + genImportBases[c.Intn(len(genImportBases))]
+	}
 	own := path()
 	g := gen.NewGeneratedFile("x.go", protogen.GoImportPath(own))
 	g.P("package x")
